@@ -15,9 +15,10 @@ from props.C01 import term, chunks
 
 class EncodeFastTask(Task):
     """_encode_fast_message for a range of payload lengths (bytes and counter symbolic)."""
-    def __init__(self, lengths):
+    def __init__(self, lengths, prop='C03'):
         self.lengths = lengths
-        self.name = f'C03:_encode_fast_message[n={lengths[0]}..{lengths[-1]}]'
+        self.prop = prop
+        self.name = f'{prop}:_encode_fast_message[n={lengths[0]}..{lengths[-1]}]'
 
     def run(self, tier):
         out = {'results': [], 'functions': [], 'notes': [], 'bounded': []}
@@ -34,11 +35,11 @@ class EncodeFastTask(Task):
             except V.Unsupported as u:
                 out['error'] = f'_encode_fast_message: outside the modelled subset: {u}'
                 from props.C03_fallback import encode_fallback
-                out['results'].extend(encode_fallback(n))
+                out['results'].extend([dict(x, obligation=x['obligation'].replace('C03/', self.prop + '/', 1)) for x in encode_fallback(n)])
         return out
 
     def one(self, r, info, n, tier, out):
-        base = f'C03/encoder.NMEA2000Encoder._encode_fast_message[n={n}]'
+        base = f'{self.prop}/encoder.NMEA2000Encoder._encode_fast_message[n={n}]'
         st = z3.Int('seq')
         bts = [z3.Int(f'p{i}') for i in range(n)]
         inputs = {'seq': st}
